@@ -233,7 +233,8 @@ class HTMLConverter(HTMLScraper, BaseDocumentConverter):
         return new_url
 
     def _convert_css_attrib(self, link_info):
-        done_key = (link_info.element, link_info.attrib)
+        # Elements hold a dict and are not hashable
+        done_key = (id(link_info.element), link_info.attrib)
 
         if done_key in self._css_already_done:
             return
@@ -250,7 +251,7 @@ class HTMLConverter(HTMLScraper, BaseDocumentConverter):
         return new_value
 
     def _convert_css_text(self, link_info):
-        if link_info.element in self._css_already_done:
+        if id(link_info.element) in self._css_already_done:
             return
 
         text = wpull.string.to_str(link_info.element.text)
